@@ -163,6 +163,27 @@ CHECKS = {
         "trusts vcheck/model/c14_recogniser.py; strings whose split leaves an empty upstream or an "
         "empty revision are UNSPECIFIED (either outcome accepted); full_version is assigned strings only",
         "DESIGN.md 4/C14"),
+    "C06": (
+        "bounded-exhaustive enumeration of short operation histories over small archives + "
+        "Hypothesis archives x interleaved read/readline/readlines/seek/tell/close histories in "
+        "both open modes (+ binutils ar as a second writer in thorough); oracle: io.BytesIO shadow "
+        "of every member compared after every operation, listing compared with what was written",
+        "model-based generated-input search: every member is shadowed by an in-memory file and all "
+        "members are compared after each step (isolation); archives come from an independent ar "
+        "writer; a search, not a proof",
+        "trusts the harness ar writer (validated byte-for-byte against binutils ar in thorough) and "
+        "io.BytesIO; read(0)/negative sizes/negative seek targets are outside the domain",
+        "DESIGN.md 4/C06"),
+    "C07": (
+        "Hypothesis packages x compression pairs (all 5x5 in thorough) x member orders x tar "
+        "formats + enumerated matrix of structurally defective member sets (+ dpkg-deb as a second "
+        "builder in thorough); oracle: contents == what was packed for 'name', './name', '/name'; "
+        "DebError for every defective set",
+        "generated-input search with a round-trip oracle over assembled packages and a rejection "
+        "oracle over the enumerated defect matrix; a search, not a proof",
+        "trusts the harness ar/tar builders (cross-checked with dpkg-deb --build); duplicate member "
+        "names are not generated; which error an absent name raises is not prescribed",
+        "DESIGN.md 4/C07"),
 }
 
 NOT_YET = "check not built yet in this round (planned; see DESIGN.md section 4)"
